@@ -72,7 +72,7 @@ class SshdFamily(Family):
         p = self.prop
         if p == "C06":
             self.rule = "all 21 message forms x generated field values (sshd's formats); non-trivial = produced an event; distinct by (form, pid, line, faults)"
-            return G.form_cases(rng, 6300 * n)
+            return G.form_cases(rng, 6300 * n) + G.long_cases(rng, 18 * n)
         if p == "C17":
             self.rule = "invalid-user / failed-password / max-attempts forms with client-chosen names (spaces, ' from ', ' port ', embedded fragments) x addresses x ports"
             return G.form_cases(rng, 6000 * n, forms=G.C17_FORMS, adversarial_every=1) + G.form_cases(rng, 1500 * n, forms=G.C17_FORMS)
@@ -81,16 +81,17 @@ class SshdFamily(Family):
             return (G.form_cases(rng, 3000 * n, forms=G.ACCEPTED, oks=("ok", "ok", "fail"), hands=("ready", "cancel"), pids=G.PIDS_OK) +
                     G.form_cases(rng, 600 * n, forms=G.ACCEPTED, oks=("ok", "fail"), hands=("ready", "cancel"), pids=G.PIDS_ODD) +
                     G.form_cases(rng, 1000 * n, oks=("ok", "fail"), hands=("ready", "cancel")) + G.malformed_cases(rng, 1500 * n) +
-                    G.accepted_with_suffix(rng, 600 * n))
+                    G.accepted_with_suffix(rng, 600 * n) + G.splice_cases(rng, 600 * n) + G.long_cases(rng, 9 * n, oks=("ok", "fail"), hands=("ready", "cancel")))
         if p == "C11":
             self.rule = "arbitrary bytes, keyword-prefixed junk, systematic mutations of valid messages, odd PID tokens; non-trivial = produced an event"
             cs = G.malformed_cases(rng, 8000 * n) + G.form_cases(rng, 1000 * n, pids=G.PIDS_ODD + G.PIDS_OK, adversarial_every=2) + G.accepted_with_suffix(rng, 600 * n)
             cs += [{"form": None, "fields": None, "pid": "1", "line": k + "A" * 20000, "ok": "ok", "h": "ready"} for k in G.KEYWORDS[:4]]
+            cs += G.splice_cases(rng, 1200 * n) + G.long_cases(rng, 18 * n, oks=("ok", "fail"))
             return cs
         if p == "C19":
             self.rule = "all forms and malformed lines; counters read from a private registry around each line"
             return (G.form_cases(rng, 4000 * n, oks=("ok", "ok", "fail"), pids=G.PIDS_OK + G.PIDS_ODD[:4]) + G.malformed_cases(rng, 4000 * n) +
-                    G.accepted_with_suffix(rng, 600 * n))
+                    G.accepted_with_suffix(rng, 600 * n) + G.splice_cases(rng, 600 * n))
         return []
 
     def extra_cases(self, rng, n):
@@ -185,9 +186,14 @@ class C07Family(SshdFamily):
         for i in range(300 * n):
             k = 1 + rng.below(6)
             fifo.append(self.fifo_case(rng, [rng.choice(pool) for _ in range(k)]))
+        longs = self._prep(G.long_cases(rng, 18 * n, oks=("ok",)), rng)
+        cs += longs
+        for i in range(12 * n):
+            k = rng.below(3)
+            fifo.append(self.fifo_case(rng, [rng.choice(pool) for _ in range(k)] + [rng.choice(longs)] + [rng.choice(pool + longs) for _ in range(rng.below(3))]))
         for slow in ([600000, 1200000] if tier == "quick" else [300000, 600000, 1200000, 2500000] * 2):
             fifo.append(self.fifo_case(rng, [rng.choice(pool) for _ in range(2)], slow_us=slow))
-        self.rule += "; plus 1-6 framed records written to a real FIFO in arbitrary pieces (splits inside records, pauses), incl. a writer that stalls 0.6-2.5 s in the middle of a record, read by SyslogIngester.Ingest"
+        self.rule += "; plus 1-6 framed records written to a real FIFO in arbitrary pieces (splits inside records, pauses), incl. records of 4-12 kB (beyond the ingester's read buffer) and a writer that stalls 0.6-2.5 s in the middle of a record, read by SyslogIngester.Ingest"
         return cs + fifo
 
     def extra_cases(self, rng, n):
